@@ -39,7 +39,7 @@ macro_rules! melem_float {
             const NAME: &'static str = $name;
             const CAN_MISS: bool = true;
             fn make(rank: i64, maxrank: i64, parity: bool) -> Self {
-                if rank == 0 { return <$t>::NAN; }
+                if rank == 0 { return <$t as AnyNan>::any_nan(); }
                 let v = float_table(maxrank)[(rank - 1) as usize];
                 (if v == 0.0 && parity { -0.0 } else { v }) as $t
             }
@@ -176,7 +176,7 @@ trait SElem: MaybeNan + Clone + 'static { const NAME: &'static str; fn mk(v: i64
 impl SElem for f64 {
     const NAME: &'static str = "f64";
     // +-INFV stand for the infinities (logged as +-2^28 so that they stay the extreme values)
-    fn mk(v: i64) -> Self { if v == MISSING { f64::NAN } else if v == INFV { f64::INFINITY } else if v == -INFV { f64::NEG_INFINITY } else { v as f64 / 4.0 } }
+    fn mk(v: i64) -> Self { if v == MISSING { nan64() } else if v == INFV { f64::INFINITY } else if v == -INFV { f64::NEG_INFINITY } else { v as f64 / 4.0 } }
     fn sc(&self) -> i64 { if f64::is_nan(*self) { MISSING } else if *self == f64::INFINITY { 1 << 28 } else if *self == f64::NEG_INFINITY { -(1 << 28) } else { (self * 1024.0).round() as i64 } }
 }
 impl SElem for Option<i32> {
